@@ -46,6 +46,9 @@ impl Scheduler {
             debug!("next: {:?}", signal);
             match signal {
                 Signal::Task(task) => {
+                    // tasks, client actions and ticks of one process run one at a time
+                    let proc = task.proc().clone();
+                    let _lock = proc.lock();
                     // a task can be closed (skipped, aborted...) while it waits in the queue
                     if task.state().is_completed() {
                         return true;
